@@ -306,6 +306,7 @@ package capella
 //@   assigns ghost(n_eng_notify), ghost(n_set_exec_header)
 //@   assigns ghost(n_set_wcred), ghost(set_wcred_v), ghost(set_wcred_val)
 //@   assigns ghost(n_set_bal)
+//@   assigns ghost(n_set_pflag)
 //@   assigns ghost(n_set_nwi), ghost(set_nwi), ghost(n_set_nwvi), ghost(set_nwvi)
 //@   assigns ghost(n_vote_append), ghost(last_vote_append), ghost(n_set_eth1), ghost(set_eth1)
 //@   assigns ghost(n_set_mix), ghost(last_set_mix_epoch), ghost(last_set_mix)
